@@ -967,6 +967,10 @@ def coq_terms(case, obs):
             ok = False
             break
         st.append(("(%s, (%s : list %s))" % (natlit(ob["n"]), lst(ys), oty), "(%s : list %s)" % (lst(si), oty)))
+    # a combined condition with a nan / -inf member is outside the model (python's min / sum with nan depend on the argument order): when
+    # the script stores such a value into the closure, the closure state is outside it as well
+    if SF and not _error_modelled(case, obs) and any(o[0] == "store" for o in case.get("script", [])):
+        ok = False
     if ok:
         T.append("(%s (st %s %s) %s && %s (sti %s %s) (%s : list (list %s)))%%bool" % (
             "st_clF" if SF else "st_eqQ", P.N, pf, lst([a for a, _ in st]), "sti_clF" if SF else "sti_eqQ", P.N, pf,
